@@ -819,6 +819,14 @@ class ParameterSet(
             If one of the given parameters is already a fixed parameter.
         """
         fix_params_keys = fix_params.keys()
+
+        # Check the request before anything gets modified.
+        for param in self._params:
+            if (param.name in fix_params_keys) and (param.isfixed is True):
+                raise ValueError(
+                    f'The parameter "{param.name}" is already a fixed '
+                    'parameter!')
+
         self._fixed_param_name_list = []
         self._floating_param_name_list = []
         self._fixed_param_name_to_idx = dict()
@@ -892,6 +900,14 @@ class ParameterSet(
             return (e, None, None)
 
         float_params_keys = float_params.keys()
+
+        # Check the request before anything gets modified.
+        for param in self._params:
+            if (param.name in float_params_keys) and (param.isfixed is False):
+                raise ValueError(
+                    f'The parameter "{param.name}" is already a floating '
+                    'parameter!')
+
         self._fixed_param_name_list = []
         self._floating_param_name_list = []
         self._fixed_param_name_to_idx = dict()
